@@ -38,6 +38,7 @@ type Engine struct {
 	loadSecs  float64
 	globalStoreLog map[string][]string
 	curProp string
+	crossCheck bool // thorough tier: every unsat answer is re-asked from a second solver
 	globalInits map[*ssa.Global]*globalInit
 }
 
@@ -524,6 +525,18 @@ func (e *Engine) Discharge(results []*FnResult, timeoutS int, workers int) {
 					sr = sr2
 				}
 				ob := it.ob
+				if e.crossCheck && !ob.Cover && sr.Status == "unsat" {
+					// an independent second opinion on the full query
+					second := "cvc5"
+					if hasQuantText(it.script) {
+						second = "z3"
+					}
+					if sr.Solver == second {
+						second = "z3-new"
+					}
+					sr2 := Solve(it.script, maxInt(10, timeoutS/2), second)
+					ob.Second = second + ":" + sr2.Status
+				}
 				ob.Result = &sr
 				switch {
 				case ob.Cover && sr.Status == "sat":
@@ -643,3 +656,8 @@ func axiomRelevant(ax *Term, seen map[int]bool) bool {
 var bigZero = newBig(0)
 
 var _ = token.NoPos
+
+
+func hasQuantText(script string) bool {
+	return strings.Contains(script, "(forall ") || strings.Contains(script, "(exists ")
+}
